@@ -843,6 +843,9 @@ impl Property for C20 {
             if hr.chance(1, 6) {
                 crate::gen::huge_handle_ids(&mut hr, &mut w, &mut []);
             }
+            if hr.chance(1, 6) {
+                crate::gen::slice_dependent_ranking(&mut hr, &mut w);
+            }
         }
         let mut r = Rng::stream(seed, "clients");
         let names: Vec<u32> = w.packages.keys().copied().collect();
